@@ -301,6 +301,49 @@ theorem affixes_preserved_negation : ¬ affixes_preserved_full := by
   have hv : keepAffixes (fun x => translate [47, 114] [47, 114] [46] x dot) [47] = .error 4 := by rfl
   rw [hv] at hr; cases hr
 
+/-- `_translate_glob_path(p)` (the patterns and matches that `glob()` and `static()` send to the
+director): unless `p` is a spelling of the root directory, the result is the translated path followed
+by `/` exactly when `p` ended with one; it never starts with `./`, whatever the spelling of `p`, and
+it designates the same location as the translated path. So `./*.txt` and `*.txt` are recorded as
+the same pattern. -/
+theorem glob_path_trailing_only (cwd root here p : Str) (hroot : isabs root = true)
+    (hhere : isabs here = false) (hnr : isabs p = true → normComps true (comps p) ≠ []) :
+    globPath (fun x => translate cwd root here x dot) p =
+      .ok (translate cwd root here p dot ++ (getAffixes p).2) ∧
+    getAffixes (translate cwd root here p dot ++ (getAffixes p).2) = ([], (getAffixes p).2) ∧
+    resolve root (translate cwd root here p dot ++ (getAffixes p).2) =
+      resolve root (translate cwd root here p dot) := by
+  have habs : isabs (translate cwd root here p dot) = true → isabs p = true := by
+    intro h
+    cases hp : isabs p with
+    | true => rfl
+    | false => rw [isabs_translate_rel hroot hhere hp isabs_dot] at h; cases h
+  have hplain : Plain (translate cwd root here p dot) := by
+    apply normal_plain (translate_normalized _ _ _ _ _ hroot)
+    intro h
+    have hp := habs h
+    rw [translate_abs _ _ _ _ _ hp, comps_normpath_abs hp, normComps_idem_abs]
+    exact hnr hp
+  have h := apply_plain (l := []) hplain (Or.inl rfl) (getAffixes_shape p).2 (fun _ => rfl)
+  have hr := resolve_affixes (l := []) hroot hplain (Or.inl rfl) (getAffixes_shape p).2 (fun _ => rfl)
+  simp only [List.nil_append] at h hr
+  exact ⟨h.1, h.2, hr⟩
+
+/-- Two spellings of one pattern that differ only by a leading `./` are recorded identically. -/
+theorem glob_path_dot_slash_irrelevant (cwd root here p : Str) (hroot : isabs root = true)
+    (hhere : isabs here = false) (hrel : isabs p = false)
+    (htr : translate cwd root here (dotSlash ++ p) dot = translate cwd root here p dot)
+    (hsuf : (getAffixes (dotSlash ++ p)).2 = (getAffixes p).2) :
+    globPath (fun x => translate cwd root here x dot) (dotSlash ++ p) =
+      globPath (fun x => translate cwd root here x dot) p := by
+  have hrel2 : isabs (dotSlash ++ p) = false := by rfl
+  rw [(glob_path_trailing_only cwd root here p hroot hhere (fun h => by rw [hrel] at h; cases h)).1,
+    (glob_path_trailing_only cwd root here (dotSlash ++ p) hroot hhere
+      (fun h => by rw [hrel2] at h; cases h)).1, htr, hsuf]
+
+example : globPath (fun x => translate [47] [47, 114] [115, 117, 98] x dot) [46, 47, 42, 46, 116, 47] =
+    .ok [115, 117, 98, 47, 42, 46, 116, 47] := by rfl
+
 /-- The same for `_keep_affixes(p, translate_back)` (`getenv(..., back=True)`). -/
 theorem affixes_preserved_back_partial (cwd root here p : Str) (hroot : isabs root = true)
     (hhere : isabs here = false) (hnr : isabs p = true → normComps true (comps p) ≠ []) :
